@@ -89,6 +89,30 @@ def runCase : Sexp → String
     match decodeTy t with
     | some ty => guarded (encodeOk ty) (helperFnName pfx.toList ty)
     | none => "bad-type"
+  | .list [.atom "dyncallee", .list enums, .list structs, .atom tr, t, .atom m] =>
+    match decodeTy t with
+    | none => "bad-type"
+    | some ty =>
+      let en := (enums.filterMap Sexp.str?).map String.toList
+      let st := (structs.filterMap Sexp.str?).map String.toList
+      let cty := collapseTy (fun n => en.contains n) (fun n => st.contains n) ty
+      "\t".intercalate [str (dynWrapperCallee (fun n => en.contains n) (fun n => st.contains n) tr.toList ty m.toList),
+        guarded (encodeOk cty) (dynVtableCtorName tr.toList cty), guarded (encodeOk cty) (dynWrapName tr.toList cty m.toList)]
+  | .list [.atom "calltarget", .atom tr, t, .atom m] =>
+    match decodeTy t with
+    | none => "bad-type"
+    | some ty =>
+      match coreCallTarget tr.toList ty m.toList with
+      | .direct f => "direct\t" ++ str f
+      | .traitCall tr' m' => "traitcall\t" ++ str tr' ++ "\t" ++ str m'
+  | .list [.atom "monocallee", .list subst, .atom tr, t, .atom m] =>
+    match decodeTy t, decodeSubst subst with
+    | some ty, some σ => str (monoCallee σ tr.toList ty m.toList)
+    | _, _ => "bad-case"
+  | .list [.atom "inh", t, .atom m] =>
+    match decodeTy t with
+    | some ty => guarded (inherentOk ty) (inherentMethodFnName ty m.toList)
+    | none => "bad-type"
   | .list [.atom "marker", .atom e] => str (enumMarkerMethod e.toList)
   | .list [.atom "spec", .atom orig, .list subst] =>
     match decodeSubst subst with
